@@ -48,6 +48,12 @@ def gen_sensitive(rng):
         # the key of a case clause is data (it is compared as it stands, never evaluated): a constant expression written there is not folded
         e = rng.choice(['(+ 1 2)', '(* 2 3)', '(if #t 1 2)', '(do 5)', '(&& 1 2)', '(|| 0 0)', '(+ "a" "b")'])
         v = rng.choice(['3', '6', '1', '5', '#t', '#f', '"ab"', f"'{e}", 'x', '(+ 1 2)'])
+        if rng.random() < 0.3:
+            # every default clause that stands before the matching clause is evaluated, in order, whatever the key form is
+            kf = rng.choice(['2', '(+ 1 1)', '(do 2)', 'x', '(if #t 2 3)'])
+            return rng.choice([f'(case {kf} (default (print "d") (set [y (+ y 1)])) (1 "one") (2 "two") (3 "three"))',
+                               f'(case {kf} (1 "one") (default (print "d")) (2 (print "t") "two") (default (print "e") 5))',
+                               f'(list (case {kf} (default (step) 0) (2 INDEX)) INDEX)'])
         return rng.choice([f'(case {v} ({e} "key") (default "dflt"))', f'(case {v} (7 "seven") ({e} (print "k") 1) (default (print "d") 2))',
                            f'(case {v} ({e} {e}) (default {e}))', f'(case {e} (3 "three") (6 "six") (default {e}))'])
     if k == 'formarg':
@@ -92,6 +98,12 @@ def gen_sensitive(rng):
         c = rng.choice(LITS + ['(+ "" "")', '(do "")', '(+ 0 0)', '(* 1 0.0)', '(&& 1 "")'])
         br = [rng.choice(DYN + LITS) for _ in range(rng.choice([1, 2, 2]))]
         return f'(if {c} ' + ' '.join(br) + ')'
+    if k == '+' and rng.random() < 0.25:
+        # string literals next to each other stay separate operands: with a list operand each becomes an element of its own
+        lits = [rng.choice(['"a"', '"b"', '""', '"rst"']) for _ in range(rng.randint(2, 3))]
+        other = rng.choice(['xs', '(list 1)', "'(\"clk\")", '(list)', 's', 'x'])
+        args = rng.choice([[other] + lits, lits + [other], lits[:1] + [other] + lits[1:]])
+        return rng.choice(['(+ ' + ' '.join(args) + ')', '(length (+ ' + ' '.join(args) + '))'])
     if k in ('+', '*'):
         pre = [rng.choice(NUMS) for _ in range(rng.randint(0, 3))]
         post = [rng.choice(DYN + ['"a"', '""', '(list 1)']) for _ in range(rng.randint(0, 2))]
